@@ -156,7 +156,8 @@ def run_history(size, ops, check_every_step=True):
 # ---------------------------------------------------------------------------
 # (b) cached_template histories
 
-SOURCES = ["A{{ v }}", "B{{ v }}{% if v %}y{% endif %}", "C", "{{ v|upper }}D", "E{% for i in l %}{{ i }}{% endfor %}"]
+# incl. sources that differ only in leading / trailing whitespace or letter case (a too coarse cache key would merge them)
+SOURCES = ["A{{ v }}", "B{{ v }}{% if v %}y{% endif %}", "C", "{{ v|upper }}D", "E{% for i in l %}{{ i }}{% endfor %}", " A{{ v }}", "A{{ v }}\n", "a{{ v }}", "C "]
 
 
 def run_ct_history(size, ops):
@@ -238,6 +239,8 @@ def run_render_seq(seq, ncls):
                 if i + 1 < ncls and i % 2 == 0:
                     inner = "{%% component 'k%d' v=v / %%}" % (i + 1)
                 tpl = "<i%d>{{ v }}%s{%% slot 's' default %%}d%d{%% endslot %%}</i%d>" % (i, inner, i, i)
+                if i == 3:
+                    tpl = " " + "<i1>{{ v }}{% slot 's' default %}d1{% endslot %}</i1>" + "\n"  # class 1's template plus whitespace
 
                 def gcd(self, v=None):
                     return {"v": v}
